@@ -4,6 +4,7 @@ import (
 	"fmt"
 	"hash/fnv"
 	"math"
+	"math/rand"
 	"reflect"
 	"sort"
 	"strings"
@@ -38,6 +39,31 @@ type SBuilder struct {
 	Only func(path string) bool
 	// Points records the dotted path of every choice point, parallel to Ch.Choices.
 	Points []string
+	// Wide selects the full boundary sets of C19 for scalar-like leaves.
+	Wide bool
+	// Rand, when set, appends that many seeded random values to every scalar domain (supplementary sampling).
+	Rand    *rand.Rand
+	RandN   int
+	randMem map[string][]uint64
+}
+
+// randBits returns the per-position random words (stable for one builder configuration).
+func (b *SBuilder) randBits(path string) []uint64 {
+	if b.Rand == nil || b.RandN == 0 {
+		return nil
+	}
+	if b.randMem == nil {
+		b.randMem = map[string][]uint64{}
+	}
+	if v, ok := b.randMem[path]; ok {
+		return v
+	}
+	v := make([]uint64, b.RandN)
+	for i := range v {
+		v[i] = b.Rand.Uint64()
+	}
+	b.randMem[path] = v
+	return v
 }
 
 func (b *SBuilder) pick(path string, n int, def int) int {
@@ -144,6 +170,17 @@ func (b *SBuilder) Build(v reflect.Value, path string) {
 	case reflect.Struct:
 		if t == timeType {
 			dom := []time.Time{{}, Instant, Epoch}
+			if b.Wide {
+				dom = append(dom,
+					time.Date(1969, 12, 31, 23, 59, 59, 999999999, time.FixedZone("W", -7*3600)),
+					time.Date(9999, 12, 31, 23, 59, 59, 1, time.UTC),
+					time.Date(1, 1, 1, 0, 0, 0, 1, time.UTC),
+					time.Unix(1600000000, 500).In(time.FixedZone("", 19800)),
+				)
+				for _, w := range b.randBits(path) {
+					dom = append(dom, time.Unix(int64(w%4102444800), int64(w>>32)%1000000000).In(time.FixedZone("R", int(w%86400)-43200)))
+				}
+			}
 			v.Set(reflect.ValueOf(dom[b.pick(path, len(dom), defIdx(b.Base, 1, 1))]))
 			return
 		}
@@ -166,6 +203,17 @@ func (b *SBuilder) Build(v reflect.Value, path string) {
 	case reflect.Slice:
 		if t.Elem().Kind() == reflect.Uint8 {
 			dom := [][]byte{nil, []byte("by" + lastSeg(path)), {}, {0}, {0xff, 0xfe}}
+			if b.Wide {
+				dom = append(dom, []byte("\x00\x01\x7f\x80\xc0\xaf\xed\xa0\x80 \xf4\x90\x80\x80"), []byte("é→\u2028\ufeff"), bytes256())
+				for _, w := range b.randBits(path) {
+					rb := make([]byte, 1+w%17)
+					for i := range rb {
+						rb[i] = byte(w >> (uint(i%8) * 8))
+						w = w*6364136223846793005 + 1442695040888963407
+					}
+					dom = append(dom, rb)
+				}
+			}
 			c := b.pick(path, len(dom), defIdx(b.Base, 1, 1))
 			if dom[c] == nil {
 				v.Set(reflect.Zero(t))
@@ -200,29 +248,89 @@ func (b *SBuilder) Build(v reflect.Value, path string) {
 		v.Set(m)
 	case reflect.String:
 		dom := []string{"", "x" + lastSeg(path), "a\x00é→z"}
+		if b.Wide {
+			dom = append(dom, "\xff\xfe invalid utf8", " leading and trailing ", "line\nbreak\ttab\"quote\\")
+			for _, w := range b.randBits(path) {
+				dom = append(dom, fmt.Sprintf("r%x", w))
+			}
+		}
 		v.SetString(dom[b.pick(path, len(dom), defIdx(b.Base, 1, 1))])
 	case reflect.Bool:
 		v.SetBool(b.pick(path, 2, defIdx(b.Base, 1, 1)) == 1)
 	case reflect.Int32, reflect.Int64, reflect.Int:
 		if isEnum(t) {
 			dom := []int64{0, 1, 2, 99, -1}
+			if b.Wide {
+				dom = append(dom, math.MinInt32, math.MaxInt32)
+			}
 			v.SetInt(dom[b.pick(path, len(dom), defIdx(b.Base, 1, 1))])
 			return
 		}
 		if t == durType || t.Name() == "Duration" {
-			v.SetInt(durDomain[b.pick(path, len(durDomain), defIdx(b.Base, 1, 1))])
+			dom := durDomain
+			if b.Wide {
+				dom = append(append([]int64{}, dom...), -1, math.MinInt64, int64(-36*time.Hour)-1, 1e9+1)
+				for _, w := range b.randBits(path) {
+					dom = append(dom, int64(w))
+				}
+			}
+			v.SetInt(dom[b.pick(path, len(dom), defIdx(b.Base, 1, 1))])
 			return
 		}
 		dom, _ := intDomain(t.Kind(), path)
+		if b.Wide {
+			dom = append(dom, 1, -2, 1<<31-2, -(1 << 31) + 1)
+			if t.Kind() != reflect.Int32 {
+				dom = append(dom, 1<<31, 1<<32, -(1 << 32), 1<<53+1, math.MinInt64+1, math.MaxInt64-1)
+			}
+			for _, w := range b.randBits(path) {
+				if t.Kind() == reflect.Int32 {
+					dom = append(dom, int64(int32(w)))
+				} else {
+					dom = append(dom, int64(w))
+				}
+			}
+		}
 		v.SetInt(dom[b.pick(path, len(dom), defIdx(b.Base, 1, 1))])
 	case reflect.Uint32, reflect.Uint64, reflect.Uint:
 		_, dom := intDomain(t.Kind(), path)
+		if b.Wide {
+			dom = append(dom, 1, 1<<31-1, 1<<31+1, math.MaxUint32-1)
+			if t.Kind() != reflect.Uint32 {
+				dom = append(dom, 1<<32, 1<<53+1, 1<<63+1, math.MaxUint64-1, math.MaxInt64-1)
+			}
+			for _, w := range b.randBits(path) {
+				if t.Kind() == reflect.Uint32 {
+					dom = append(dom, uint64(uint32(w)))
+				} else {
+					dom = append(dom, w)
+				}
+			}
+		}
 		v.SetUint(dom[b.pick(path, len(dom), defIdx(b.Base, 1, 1))])
 	case reflect.Float32:
 		dom := []float64{0, 1.5, math.Copysign(0, -1), math.SmallestNonzeroFloat32, math.MaxFloat32, -math.MaxFloat32, float64(float32(0.1))}
+		if b.Wide {
+			dom = append(dom, float64(float32(1.0/3)), float64(float32(16777216)), float64(float32(16777215)), float64(math.Float32frombits(0x00800000)), float64(math.Float32frombits(0x007fffff)), float64(float32(math.Pi)), -float64(math.SmallestNonzeroFloat32), float64(math.Float32frombits(0x7f7ffffe)))
+			for _, w := range b.randBits(path) {
+				f := math.Float32frombits(uint32(w))
+				if f == f && !math.IsInf(float64(f), 0) {
+					dom = append(dom, float64(f))
+				}
+			}
+		}
 		v.SetFloat(dom[b.pick(path, len(dom), defIdx(b.Base, 1, 1))])
 	case reflect.Float64:
 		dom := []float64{0, 1.5, math.Copysign(0, -1), math.SmallestNonzeroFloat64, math.MaxFloat64, -math.MaxFloat64, 0.1}
+		if b.Wide {
+			dom = append(dom, 1.0/3, 1<<53+2, 1<<53-1, math.Float64frombits(0x0010000000000000), math.Float64frombits(0x000fffffffffffff), math.Pi, -math.SmallestNonzeroFloat64, math.Float64frombits(0x7feffffffffffffe), float64(math.MaxFloat32)*2)
+			for _, w := range b.randBits(path) {
+				f := math.Float64frombits(w)
+				if f == f && !math.IsInf(f, 0) {
+					dom = append(dom, f)
+				}
+			}
+		}
 		v.SetFloat(dom[b.pick(path, len(dom), defIdx(b.Base, 1, 1))])
 	default:
 		panic("explorer: unsupported kind " + t.Kind().String() + " at " + path)
@@ -446,4 +554,12 @@ func deepCopy(dst, src reflect.Value) {
 	default:
 		dst.Set(src)
 	}
+}
+
+func bytes256() []byte {
+	b := make([]byte, 256)
+	for i := range b {
+		b[i] = byte(i)
+	}
+	return b
 }
